@@ -17,7 +17,7 @@ func init() {
 		Patterns: []string{"./d2parser", "./d2ast"},
 		Explanation: "Decides the position bookkeeping discipline of the parser: (1) every AST node literal the parser builds with a Range gets its End set — by a deferred End.From, by a deferred closure, or by an assignment on the path — and every deferred End.From copies the committed position p.pos or a local that is only ever assigned from p.pos (never the reader/look-ahead positions, which run ahead of what was consumed); " +
 			"(2) every Range.Start in such a literal is p.pos or p.pos moved back over a constant delimiter; (3) every Advance/Subtract/AdvanceString/SubtractString call of the parser passes p.utf16Pos as the mode (a literal false breaks UTF-16 positions only); " +
-			"(4) Position.Advance and Position.Subtract compute the width of a rune by the same statements (sibling agreement), so moving forward and back over a rune cancel; (5) who-may-write: p.pos is assigned only in read, replay and commit; p.lookaheadPos only in read, peek and rewind; p.readerPos only in _readRune.",
+			"(4) Position.Advance and Position.Subtract compute the width of a rune by the same statements (sibling agreement), so moving forward and back over a rune cancel; (5) who-may-write: p.pos is assigned only in read, replay and commit; p.lookaheadPos only in read, peek and rewind; p.readerPos only in _readRune; (6) where a node's End is copied from a local that follows p.pos (the unquoted-string reader's position of the last non-space rune), every commit of consumed input is followed on every path by an update of that local, by the whitespace test guarding the update, or by a replay, before the reader loops or returns.",
 		NotCovered: "that line, column and byte are numerically right for a given input; UTF-16 surrogate arithmetic beyond the Advance/Subtract symmetry; that a node's range text parses back to the node",
 		Technique:  "static analysis: constructor/exit pairing, argument uniformity, sibling agreement (statement shape), who-may-write on the typed AST",
 		Run:        runC02,
@@ -200,6 +200,88 @@ func runC02(c *core.Check) {
 			}
 			return true
 		})
+	}
+	// end tracker: where a node's End is copied from a local that follows p.pos (the unquoted-string reader keeps the
+	// position of the last non-space rune), every commit of consumed input must be followed by an update of that local,
+	// by the whitespace test that guards the update, or by a replay, before the reader loops or returns
+	c.Rule("C02.end-tracker", "the local that tracks a node's end is updated after every commit")
+	for _, fi := range c.P.Funcs(pk) {
+		info := fi.Pkg.TypesInfo
+		var tracker types.Object
+		ast.Inspect(fi.Decl.Body, func(n ast.Node) bool {
+			ds, ok := n.(*ast.DeferStmt)
+			if !ok || !core.IsCallTo(info, ds.Call, "d2ast.(*Position).From") {
+				return true
+			}
+			if u, ok := ast.Unparen(ds.Call.Args[0]).(*ast.UnaryExpr); ok && u.Op == token.AND {
+				if o := core.ObjOf(info, u.X); o != nil && core.FieldOf(info, u.X) == nil {
+					tracker = o
+				}
+			}
+			return true
+		})
+		if tracker == nil {
+			continue
+		}
+		isBarrier := func(n ast.Node) bool {
+			switch x := n.(type) {
+			case *ast.AssignStmt:
+				for _, l := range x.Lhs {
+					if core.ObjOf(info, l) == tracker {
+						return true
+					}
+				}
+			case *ast.CallExpr:
+				if core.IsCallTo(info, x, "unicode.IsSpace", "d2parser.(*parser).replay") {
+					return true
+				}
+			}
+			return false
+		}
+		bodies := core.BodiesOf(fi.Decl)
+		flows := map[int]*core.Flow{}
+		ncommit := 0
+		for _, call := range core.Calls(fi.Decl.Body, true) {
+			if !core.IsCallTo(info, call, "d2parser.(*parser).commit") {
+				continue
+			}
+			ncommit++
+			bi := core.InnermostBody(bodies, call)
+			if flows[bi] == nil {
+				flows[bi] = core.NewFlow(fi.Pkg, bodies[bi].Block)
+			}
+			fl := flows[bi]
+			cb, ci, ok := fl.Locate(call)
+			if !ok {
+				c.Fail("C02.end-tracker", "commit:"+fname(fi), call.Pos(), "commit not locatable in the flow graph")
+				continue
+			}
+			leak := ""
+			for _, ex := range fl.Exits() {
+				if r, _ := fl.ReachableFromAvoiding(cb, ci, ex.Blk, ex.Idx, isBarrier); r {
+					leak = "a return"
+				}
+			}
+			// the head of the innermost enclosing loop
+			var loop *ast.ForStmt
+			ast.Inspect(bodies[bi].Block, func(n ast.Node) bool {
+				if fs, ok := n.(*ast.ForStmt); ok && fs.Body.Pos() <= call.Pos() && call.End() <= fs.Body.End() {
+					loop = fs
+				}
+				return true
+			})
+			if loop != nil && len(loop.Body.List) > 0 {
+				if hb, hi, ok := fl.Locate(loop.Body.List[0]); ok {
+					if r, _ := fl.ReachableFromAvoiding(cb, ci, hb, hi, isBarrier); r {
+						leak = "the next loop iteration"
+					}
+				}
+			}
+			c.Decide(leak == "", "C02.end-tracker", "commit:"+fname(fi), call.Pos(), tracker.Name()+" is updated (or the whitespace test / a replay is passed) after this commit on every path", "after this commit the reader can reach "+leak+" without updating "+tracker.Name()+": the rune just consumed is part of the node's value but not of its range (the range ends one character early)")
+		}
+		if ncommit == 0 {
+			c.Fail("C02.end-tracker", "commit:none:"+fname(fi), fi.Decl.Pos(), "no commit found in a function that tracks its end position")
+		}
 	}
 	c.Floor("C02.end-set", 12)
 	c.Floor("C02.utf16-mode", 20)
